@@ -31,6 +31,7 @@ def main():
     checks = [prop]
     tier = "quick"
     only = ""
+    base = "HEAD"
     args = sys.argv[4:]
     while args:
         a = args.pop(0)
@@ -38,6 +39,8 @@ def main():
             checks = args.pop(0).split(",")
         elif a == "--tier":
             tier = args.pop(0)
+        elif a == "--base":
+            base = args.pop(0)
         elif a == "--only":
             only = " ".join("--only " + h for h in args.pop(0).split(","))
     out_dir = os.path.join(VERIF, "seeded", sid)
@@ -48,10 +51,10 @@ def main():
     wt = f"/tmp/ev_{sid}"
     sh(f"git -C /repo worktree remove --force {wt}")
     shutil.rmtree(wt, ignore_errors=True)
-    rc, o = sh(f"git -C /repo worktree add --detach {wt} HEAD")
+    rc, o = sh(f"git -C /repo worktree add --detach {wt} {base}")
     assert rc == 0, o
     env = dict(os.environ, CARGO_NET_OFFLINE="true", CARGO_TARGET_DIR=f"{wt}/target")
-    meta = {"id": sid, "breaks_property": prop, "base_commit": sh("git -C /repo rev-parse HEAD")[1].strip(), "ran": []}
+    meta = {"id": sid, "breaks_property": prop, "base_commit": sh(f"git -C /repo rev-parse {base}")[1].strip(), "ran": []}
     try:
         shutil.copy(os.path.join(out_dir, "demo.rs"), os.path.join(wt, "tests", "zz_demo.rs"))
         rc, p0, f0, o0 = suite(wt, env, "zz_demo")
